@@ -14,6 +14,10 @@ GEN_AUDIT = ["Dashu.Audit.GenRound", "Dashu.Audit.C10Est", "Dashu.Audit.C10EstNo
 # and proved equal to `Model/Float/RoundOps.lean`
 GEN_PROPS += ["Dashu.Props.GenFloatOps"]
 GEN_AUDIT += ["Dashu.Audit.GenFloatOps"]
+# round 4: the coarse f32 test of round_fract on its explicit region (real analysis, kept apart like C10Est) and the
+# mirrored rational/src/round.rs with the twelve RBig / Relaxed entry points
+GEN_PROPS += ["Dashu.Props.C10Coarse", "Dashu.Props.C10Ratio"]
+GEN_AUDIT += ["Dashu.Audit.C10Coarse", "Dashu.Audit.C10Ratio"]
 
 BASES = [2, 3, 10, 16, 36]
 MODES = "ZAUDEH"
@@ -130,6 +134,39 @@ def gen_primitives(rng, tier):
                 m = rng.choice("EH")
                 yield Case("r.fract", [m, dec(B), hx(rng.choice([0, 1, 2, -1])), hx(f * rng.choice([1, -1])), dec(k)], nontrivial=True)
 
+def shx(v):
+    return ("-%x" % -v) if v < 0 else ("%x" % v)
+
+def gen_coarse_directed(rng, tier):
+    """directed probes of round_fract's coarse f32 test through `r.fracth` (|fract| = B^k div 2 + c*(B^k >> t) + e is built on
+    both sides, no digits are shipped).  Props/C10Coarse proves the test sound for k <= 2^24 (`precision as f32` exact); the
+    classes: deep inside the region, at its edge (2^24 - 1, 2^24) and BEYOND it (2^24 + 1, 2^24 + 3, 2^25 + 3: k is rounded
+    by the conversion), each with ties, tie+-1, near-halves (relative distance 2^-8 .. 2^-24) and fractions far from 1/2
+    (where the test decides)."""
+    def offsets(n):
+        out = [(0, 0, 0), (0, 0, 1), (0, 0, -1), (2, 1, 0), (2, -1, 0), (3, 3, 1)]
+        for _ in range(n):
+            out.append((rng.randrange(8, 25), rng.choice([-3, -2, -1, 1, 2, 3]), rng.choice([0, 0, 1, -1])))
+        return out
+    inside = [1200, 1683, 5000, 9000, 33000, 100000] if tier == "quick" else \
+        [1200, 1683, 2525, 4933, 5000, 7000, 9000, 12000, 16384, 20000, 33000, 100000, 300000, 1000000]
+    for k in inside:
+        for B in BASES:
+            for (t, c, e) in offsets(3 if tier == "quick" else 30):
+                yield Case("r.fracth", [rng.choice("EH" + MODES), dec(B), hx(rng.choice([0, 1, 2, -1])), dec(k), dec(t),
+                                        shx(c), shx(e), rng.choice(["true", "false"])], nontrivial=True)
+    K24 = 1 << 24
+    if tier == "quick":
+        edge = [(2, K24), (2, K24 + 1), (16, K24 + 1), (2, 2 * K24 + 3), (10, K24 + 1)]
+        offs = [(0, 0, 0), (20, 1, -1)]
+    else:
+        edge = [(B, k) for B in BASES for k in (K24 - 1, K24, K24 + 1, K24 + 3, 2 * K24 + 3)]
+        offs = [(0, 0, 0), (0, 0, -1), (rng.randrange(18, 25), rng.choice([-1, 1]), 0), (2, 1, 0)]
+    for (B, k) in edge:
+        for (t, c, e) in offs:
+            yield Case("r.fracth", [rng.choice("EH"), dec(B), hx(rng.choice([0, 1])), dec(k), dec(t), shx(c), shx(e),
+                                    rng.choice(["true", "false"])], nontrivial=True)
+
 def float_values(rng, B, p):
     """(signif, exp) pairs built from the branch conditions of round_ops.rs: exponent >= 0, radix point
     inside the digits, |x| in [1/B,1), |x| < 1/B, exponent far below -precision; halves / near-halves"""
@@ -221,25 +258,36 @@ def gen_floats(rng, tier):
         else:
             yield Case(op, [fenc(B, s, e, 0, m)])
 
+QOPS = ["q.trunc", "q.floor", "q.ceil", "q.round", "q.fract", "q.split", "q.fract_raw", "q.split_raw"]
+
 def gen_rational(rng, tier):
-    for d in (1, 2, 3, 4, 7, 10):
+    # every op runs the RBig AND the Relaxed entry point; `*_raw` print the fraction as each type holds it (unreduced in
+    # Relaxed).  Denominators 6, 9, 12 with unreduced numerators exercise reduce / reduce2 before the rounding
+    for d in (1, 2, 3, 4, 6, 7, 9, 10, 12):
         for n in range(-3 * d - 1, 3 * d + 2):
-            for op in ("q.trunc", "q.floor", "q.ceil", "q.round", "q.fract", "q.split"):
+            for op in QOPS:
                 yield Case(op, [hx(n), hx(d)], nontrivial=False)
-    cnt = 400 if tier == "quick" else 40000
+    cnt = 600 if tier == "quick" else 60000
     for _ in range(cnt):
         d = rng.choice([rng.getrandbits(64) | 1, rng.getrandbits(130) | 1, 2 * rng.getrandbits(70) + 2, 1 << 64, (1 << 128) - 1])
         q = rng.choice([0, 1, rng.getrandbits(66), rng.getrandbits(200)])
         r = rng.choice([0, 1, d // 2, d // 2 + 1, max(d // 2 - 1, 0), d - 1, rng.randrange(0, d)])
         n = (q * d + r) * rng.choice([1, -1])
-        yield Case(rng.choice(["q.trunc", "q.floor", "q.ceil", "q.round", "q.fract", "q.split"]), [hx(n), hx(d)])
+        if rng.random() < 0.4:
+            # common factor: odd (kept by Relaxed, removed by RBig), a power of two (removed by both), or both
+            g = rng.choice([3, 15, 1 << rng.randrange(1, 70), 3 << rng.randrange(1, 70), rng.getrandbits(64) | 1])
+            n *= g; d *= g
+        yield Case(rng.choice(QOPS), [hx(n), hx(d)])
 
 def generate(rng, tier):
     yield from gen_primitives(rng, tier)
+    yield from gen_coarse_directed(rng, tier)
     yield from gen_floats(rng, tier)
     yield from gen_rational(rng, tier)
 
 def nontrivial(c):
+    if c.op == "r.fracth":
+        return True
     if c.op.startswith("r."):
         return c.args[3] != "0"
     if c.op.startswith("f."):
@@ -256,7 +304,11 @@ RULE = ("primitives: the complete grid integer {-2..2} x fraction {0,+-1,+-(h-1)
         "and with_precision to {0,1,2,d-1,d,d+1,d/2,p,p+3} digits; 64..1000-digit operands with exp+digits in {-3..2, +1.6%, +2.5%, +4% of "
         "the length} (threshold of the digit-estimate shortcut); the same ops on operands of UNLIMITED precision (context precision 0, "
         "1..130 digits, with_precision to {0,1,2,3,d-1,d,d+1,d/2,2d+3}). Rationals: all n/d with d in {1,2,3,4,7,10}, |n| <= 3d+1, plus "
-        "random 64..330-bit ones with remainders {0,1,d/2-1,d/2,d/2+1,d-1}. Non-trivial := non-zero low part / fractional digits "
+        "random 64..330-bit ones with remainders {0,1,d/2-1,d/2,d/2+1,d-1}, 40 % multiplied through by a common factor (odd, power "
+        "of two, both) so that RBig and Relaxed hold different representations; every rational op runs both entry points, "
+        "q.fract_raw / q.split_raw print the fraction as each type holds it. Coarse-test probes (r.fracth, |fract| = B^k div 2 + "
+        "c*(B^k >> t) + e built on both sides): k in {1200 .. 10^6} inside the proved region, k = 2^24-1, 2^24 at its edge and "
+        "k = 2^24+1, 2^24+3, 2^25+3 beyond it, with ties, ties+-1, near-halves (2^-8..2^-24) and far fractions. Non-trivial := non-zero low part / fractional digits "
         "present; distinct := distinct (op,args).")
 REFINED = ["Round::round_low_part x6 (regenerated, Props/GenRound)", "Round::round_fract", "Round::round_ratio",
            "utils::split_digits / split_digits_ref (base-10, power-of-two and generic paths)",
@@ -264,8 +316,20 @@ REFINED = ["Round::round_low_part x6 (regenerated, Props/GenRound)", "Round::rou
            "utils::digit_len",
            "Repr::normalize", "Context::repr_round / repr_round_ref", "FBig::with_precision",
            "FBig::trunc/floor/ceil/round/fract/split_at_point/to_int", "Repr::to_int",
-           "rational Repr::trunc/floor/ceil/round/fract/split_at_point"]
-FRONTIER = ["f32 estimates digits_ub / smaller_than_one / round_fract coarse test: parameters with enclosure hypotheses. Proved: the "
+           "rational Repr::{split_at_point, ceil, floor, trunc, fract, round} mirrored statement by statement (Model/Float/QRound.lean: "
+           "div_rem + adjustment, Repr::zero() for a zero remainder, unreduced fraction) and executed by the driver",
+           "RBig::{split_at_point, ceil, floor, round, trunc, fract} and Relaxed::{...}: the twelve wrappers, each driven on the "
+           "representation its type holds after from_parts (reduce / reduce2 mirrored at value level); results of fract / "
+           "split_at_point proved to keep the type invariant without reduction",
+           "round_fract's coarse f32 test (closure `test`): bit-exact Float32 replica `coarseF32` executed by the driver in "
+           "r.fract / r.fracth in place of the exact comparison; proved sound over the reals on the explicit region "
+           "2 <= B < 2^64, 0 < |fract| < B^k, k <= 2^24 (Props/C10Coarse)"]
+FRONTIER = ["round_fract coarse test for precision > 2^24 digits (`precision as f32` is rounded): outside the proved region, driven on the "
+            "real code against the exact comparison (k = 2^24+1, 2^24+3, 2^25+3, all bases, ties / near-halves / far fractions); "
+            "inside the region the proof rests on the f32 assumptions (R) relative error <= 2^-24 per operation, (E) log2_bounds "
+            "encloses log2, (S-structure) enclosure of the highest double word; FBig ops / repr_round still run the model with "
+            "the exact comparison (sound by the same theorem; the replica is used in the r.* primitives)",
+            "f32 estimates digits_ub / smaller_than_one: parameters with enclosure hypotheses. Proved: the "
             "hypotheses follow from (A) log2 n <= ub, (B) monotone f32 rounding fixing small integers, (C) two constants on the safe "
             "side (Props/C10Est); (A) for the no_std table estimator follows from builder-nt's integer theorems with no libm "
             "assumption (Props/C10EstNoStd); the estimate is not observable through trunc/fract/split/floor/ceil/round since "
@@ -279,6 +343,13 @@ THEOREMS = ["Dashu.Props.C10." + t for t in (
     "repr_to_int_correct trunc_add_fract_eq split_at_point_eq rbig_trunc_correct rbig_floor_correct rbig_ceil_correct "
     "rbig_round_correct rbig_trunc_add_fract").split()] + [
     "Dashu.Props.C10Est.digits_ub_sound", "Dashu.Props.C10Est.dub_sound", "Dashu.Props.C10EstNoStd.digits_ub_nostd_sound",
+    "Dashu.Props.C10Coarse.coarse_test_sound", "Dashu.Props.C10Coarse.round_fract_coarse_irrelevant",
+    "Dashu.Props.C10Coarse.coarse_gt_margin", "Dashu.Props.C10Coarse.coarse_lt_margin",
+    "Dashu.Props.C10Coarse.adjust_slack_lower", "Dashu.Props.C10Coarse.adjust_slack_upper",
+    "Dashu.Props.C10Ratio.repr_trunc_correct", "Dashu.Props.C10Ratio.repr_floor_correct", "Dashu.Props.C10Ratio.repr_ceil_correct",
+    "Dashu.Props.C10Ratio.repr_round_correct", "Dashu.Props.C10Ratio.repr_trunc_add_fract", "Dashu.Props.C10Ratio.repr_fract_range",
+    "Dashu.Props.C10Ratio.repr_split_at_point_eq", "Dashu.Props.C10Ratio.rbig_entry_points",
+    "Dashu.Props.C10Ratio.relaxed_entry_points",
     "Dashu.Props.GenRound.zero_correct", "Dashu.Props.GenRound.away_correct", "Dashu.Props.GenRound.up_correct",
     "Dashu.Props.GenRound.down_correct", "Dashu.Props.GenRound.half_even_correct", "Dashu.Props.GenRound.half_away_correct"]
 EXPLANATION = ("Lean theorems, for every base >= 2, every precision and all integers: the regenerated six mode tables composed with the "
@@ -286,9 +357,16 @@ EXPLANATION = ("Lean theorems, for every base >= 2, every precision and all inte
                "with_precision satisfy the rounding contract over Rat; trunc+fract = x, split_at_point = (trunc, fract) and "
                "floor/ceil/round/trunc/to_int/Repr::to_int name the right neighbour with truthful flags for every digits_ub estimator "
                "satisfying its enclosure hypothesis (the model mirrors /repo after fix f9ab1b6 of split_at_point_internal, found here: "
-               "0.0099 at 2 digits rounded to 1); RBig/Relaxed trunc/floor/ceil/round/fract by quotient and remainder. Model tied to "
+               "0.0099 at 2 digits rounded to 1); the mirrored Repr::{split_at_point,ceil,floor,trunc,fract,round} of rational/src/round.rs "
+               "and the twelve RBig/Relaxed entry points name the right neighbour, x = trunc + fract, and fract keeps the type "
+               "invariant unreduced; the coarse f32 test of round_fract decides as the exact comparison for every precision up to "
+               "2^24 digits (no bound of the order 10^4 is needed: log2_bounds_large's ADJUST factor pays for the roundings). Model tied to "
                "/repo by the regenerated tables and by differential execution.")
-ASSUMPTIONS = ["f32 digit estimate: digits <= digits_ub is PROVED (Props/C10Est, over the reals) from: (A) log2f at most one ulp too small "
+ASSUMPTIONS = ["round_fract coarse test (Props/C10Coarse): (R) every f32 + / * is a rounding with relative error <= 2^-24 (IEEE-754 "
+               "round-to-nearest, normal range), (E) 0 <= lb <= log2 n <= ub for log2_bounds, (S) for operands >= 2^128 the highest "
+               "double word's bounds enclose its log2 (the ADJUST slack is then derived), (C) 0.999f32 = 16760439/2^24, "
+               "1.001f32 = 8396997/2^23; region k <= 2^24",
+               "f32 digit estimate: digits <= digits_ub is PROVED (Props/C10Est, over the reals) from: (A) log2f at most one ulp too small "
                "(log2 x <= next_up(log2f x); for n >= 2^24 plus the IEEE grid fact next_up(fl(est+s)) >= next_up(est)+s), (B) the single "
                "f32 * or / is a monotone rounding fixing integers <= 2^24, (C) LOG10_2 >= log10 2 and 0 < log2_bounds(B).0 <= log2 B; "
                "(A)-(C) themselves are assumptions about IEEE binary32 / libm, and the driver additionally checks the resulting "
